@@ -430,7 +430,7 @@ class Check:
             ev["coverage"]["inconclusive"] = self.inconclusive
         evdir = os.environ.get("VERIF_EVIDENCE_DIR") or os.path.join(VERIF, "evidence")
         os.makedirs(evdir, exist_ok=True)
-        with open(os.path.join(evdir, self.pid + ".json"), "w") as fh:
+        with open(os.path.join(evdir, self.pid + (".partial.json" if getattr(self, "partial", False) else ".json")), "w") as fh:
             json.dump(ev, fh, indent=1, default=str)
             fh.write("\n")
         if self.violations:
